@@ -350,7 +350,8 @@ Definition avx_stage (options iflags avx : N) (has_mem op0_is_mem : bool) (ops :
     if test options (N.lor OPT_SAE OPT_ER) then
       if has_mem then E_InvalidEROrSAE else
       if test options OPT_ER && negb (test avx AF_ER) then E_InvalidEROrSAE else
-      if negb (test options OPT_ER) && negb (test avx AF_SAE) then E_InvalidEROrSAE else
+      (* {sae} alone: the instruction must have SAE and must NOT have embedded rounding (6f19678: a lone {sae} would be encoded as {rn-sae}) *)
+      if negb (test options OPT_ER) && (negb (test avx AF_SAE) || test avx AF_ER) then E_InvalidEROrSAE else
       if test avx (N.lor AF_B16 (N.lor AF_B32 AF_B64)) &&
          negb (is_zmm_or_m512 (nth 0 ops ONone)) && negb (is_zmm_or_m512 (nth 1 ops ONone)) then E_InvalidEROrSAE
       else E_Ok
@@ -598,3 +599,26 @@ Definition rep_premises (T : vtables) (x64 : bool) (row : dbrow) : bool :=
 Definition rep_premises_both (T : vtables) (row : dbrow) : bool :=
   (if test (dr_mode row) MODE_X86 then rep_premises T false row else true) &&
   (if test (dr_mode row) MODE_X64 then rep_premises T true row else true).
+
+(* ------------------------------------------------------------------ a database row together with ONE decoration its form grants, as the instruction word carrying it
+   (options, extra register): all premises of the row-level acceptance theorem evaluated on the representative operands *)
+Definition rep_decor_premises (T : vtables) (x64 : bool) (dr : dbrow * N * N * N) : bool :=
+  let '(row, options, et, ei) := dr in
+  let inst := {| vi_id := dr_inst row; vi_options := options; vi_extra_type := et; vi_extra_id := ei |} in
+  let ops := rep_ops x64 row in
+  let '(iflags, avx, _, _) := nth (N.to_nat (dr_inst row)) (vt_inst T) (0, 0, 0, 0) in
+  row_present T row &&
+  match xlat_all T x64 false avx ops init_xstate with
+  | inr (st, rest) =>
+    forallb is_none rest && fits_all (explicit_ops (dr_ops row)) (xs_sigs st) &&
+    (lock_stage options iflags (first_is_mem ops) =? E_Ok) && (rep_stage options iflags =? E_Ok) && (mode_stage x64 options st =? E_Ok) &&
+    (evex_stage options iflags =? E_Ok) &&
+    (avx_stage options iflags avx (match xs_mem st with Some _ => true | None => false end) (first_is_mem ops) ops =? E_Ok) &&
+    (extra_stage inst iflags avx st =? E_Ok)
+  | inl _ => false
+  end.
+
+Definition rep_decor_premises_both (T : vtables) (dr : dbrow * N * N * N) : bool :=
+  let row := fst (fst (fst dr)) in
+  (if test (dr_mode row) MODE_X86 then rep_decor_premises T false dr else true) &&
+  (if test (dr_mode row) MODE_X64 then rep_decor_premises T true dr else true).
